@@ -13,16 +13,16 @@ CHECKS = {
             "Every program with up to K statement nodes (nesting <= 3) over a scoping-revealing alphabet, under every device answer history in {0,1,2}^4 where bounds are read from the device and three signal lists, is run through the real parser/binder/iterator and compared row by row with a reference interpreter. Exhaustive within those bounds; nothing is sampled.",
             "Trusts the reference interpreter (harness/src/refsem.rs) and the small-scope hypothesis; programs whose reference run exceeds 40 rows / 600 steps are out of scope.", "6/C01"),
     "C02": ("E1", "explicit-state model checking (stateright BFS) of the iterator/driver protocol: call log vs yielded items after every transition",
-            "All sequences of up to 4 (thorough 5) row statements from an 11-row menu (plain, C, X, Z, failing expression, repeat) at loop depth 0/1, and all feedback programs of the C04 alphabet under every answer history, for drivers that do and do not override write_input. After every next() the driver's own call log must account for exactly: the constructor call with all defaults, one call per yielded row carrying the row's inputs verbatim (flags included), output-reading iff the row has outputs, none for expression-error items, none after the end (also on repeated calls).",
+            "All sequences of up to 4 (thorough 5) row statements from an 11-row menu (plain, C, X, Z, failing expression, repeat) at loop depth 0/1, and all feedback programs of the C04 alphabet under every answer history, for drivers that do and do not override write_input. After every next() the driver's own call log must account for exactly: the constructor call with all defaults, one call per yielded row carrying the row's inputs verbatim (flags included), output-reading iff the row has outputs, none for expression-error items, none after the end (also on repeated calls); which rows are checked is the reference expansion's. Also with one injected driver fault at any call after which the caller carries on, and for configurations with a bidirectional signal (used as input and expected, only through its _out column, not mentioned).",
             "The oracle uses only the subject's items and the driver's log; the reference interpreter only predicts which kind of call comes next so that the script can be built.", "6/C02"),
     "C03": ("E1", "explicit-state model checking (stateright BFS) over signal-list orders x fixed output layouts x per-call answers; oracle = the driver's own record + X/Z truth table",
-            "6 signal-list orders x all 16 layouts (every ordered subset of three output-capable signals incl. a 64-bit one and a bidirectional one) x per-call answers from {0,5,15,-1,MAX,MIN,Z,X} per supplied signal (layered graph: every pair of consecutive answers is a transition). Every checked row must report for each signal exactly what the driver returned for it in that call (X if unsupplied), in signal-list order, and check()/is_checked()/failing_outputs() must follow the X/Z rules for expected values cycling through X, Z, 0, 5, -1, MAX.",
+            "6 signal-list orders x all 16 layouts (every ordered subset of three output-capable signals incl. a 64-bit one and a bidirectional one) x per-call answers from {0,5,15,-1,MAX,MIN,Z,X} per supplied signal (layered graph: every pair of consecutive answers is a transition). Every checked row must report for each signal exactly what the driver returned for it in that call (X if unsupplied), in signal-list order, and check()/is_checked()/failing_outputs() must follow the X/Z rules for expected values cycling through X, Z, 0, 5, -1, MAX (entry check(), OutputValue::check and ExpectedValue::check alike). Further families: variables named like outputs, a bidirectional D next to an output named D_out, a declared signal that fails for some answers with the caller carrying on.",
             "Quick tier uses {0,-1,Z,X} for three-signal layouts; thorough the full menu.", "6/C03"),
     "C04": ("E1", "explicit-state model checking (stateright BFS) of feedback programs under every history of device answers, lock-step with the reference interpreter, states de-duplicated on (real iterator key, reference continuation)",
             "Every program up to 3 (thorough 4) statements over the feedback alphabet (reads in rows, let, loop and repeat bounds, while conditions, clocked rows, a variable shadowing the signal, a self-referential let) that binds, x 2 signal lists x 2 driver variants x 3 layouts (full, omitting each read output), with every output-reading call answering Q in {0,1,2,Z,X} x DONE in {0,1}. Each item must equal the reference interpreter fed the same answers: values come from the latest output-reading call, mid-clock answers are never read, variables shadow signals (also after an error item when the caller carries on), Z/X reads are error items, a missing read output fails construction after exactly one call.",
             "De-duplication soundness: DESIGN 5.1; thorough re-explores a slice without merging. Mismatches on device-read loop bounds are attributed to C01 when the literal program fails equally.", "6/C04"),
     "C10": ("E2", "bounded-exhaustive enumeration of a targeted hostile space (dangerous expression x position x boundary operands x widths x driver behaviours) and re-used program corpora under a never-panics / error-item-where-predicted oracle",
-            "One dangerous expression (all of / % + - * << >> unary- over 19^2 boundary operand pairs read from the device or as literals; random with bounds -1..3; signExt; variables assigned only in unexecuted while bodies; counters pushed to MAX; bits(0), bits(64)) in each of 8 expression positions for signal widths 1, 2, 63, 64 on input, output and bidirectional signals; drivers returning Z/X, omitting a read output, failing at each call index; the whole C01/C18 program space up to 3 statements under 7 hostile constant answers; every (program, signal list) pair of the C11 menu that with_signals accepts. No panic from construction, next(), vars() or static iteration; division by zero, unassigned variable, empty random range, unimplemented function and Z/X reads are error items exactly where the reference predicts; everything else yields rows.",
+            "One dangerous expression (all of / % + - * << >> unary- over 19^2 boundary operand pairs read from the device or as literals; random with bounds -1..3; signExt; variables assigned only in unexecuted while bodies; counters pushed to MAX; bits(0), bits(64)) in each of 8 expression positions for signal widths 1, 2, 63, 64 on input, output and bidirectional signals; drivers returning Z/X, omitting a read output, failing at each call index; the whole C01/C18 program space up to 3 statements under 7 hostile constant answers; every (program, signal list) pair of the C11 menu that with_signals accepts. No panic from construction, next(), vars() or static iteration; division by zero, unassigned variable, empty random range, unimplemented function and Z/X reads are error items exactly where the reference predicts (every binary operator is strict in both operands); everything else yields rows.",
             "Item kinds only (values are C08's); each run observed for 8 next() calls.", "6/C10"),
     "C13": ("E1", "explicit-state model checking (stateright BFS) with fault/deviation injection at every call index (deviation budget 1), caller carries on after the error",
             "12 curated programs (flat, clock rows, X+C, loop, device reads, virtual signal, bidirectional, no output in the header, permuted lists) x every first layout (each subset of the outputs, and reversed) x 2 driver variants; at every call the driver may fail (constructor, output-reading, write-only) or depart from its first layout in every listed way (drop each entry, empty answer, append foreign/copy/unsupplied, duplicate over either neighbour, swap, substitute at every position). The very error value must come back from try_iter or as the item of exactly that row; all items before equal the fault-free reference run; a deviating answer at a checked row yields an error item; every returned row anywhere attributes to each signal only a value the driver reported for that signal in that call.",
@@ -31,13 +31,13 @@ CHECKS = {
             "Every declaration set (V in {none, Q+1, Q*2+R, 7, (Q<<60)} x W in {none, !R, Q=R}) x 5 placements x 5 shadowing variants x 4 headers that bind, x 2 driver variants, every output-reading call answering (Q,R) in {0,1,2,Z,X}^2, caller carrying on after error items. In every checked row each declaration appears after the real outputs as a 64-bit entry whose value is the expression over this call's answer with variables invisible and whose expected value is its column's entry or X; a Z/X operand makes exactly that next() an error item (never at construction, never a panic).",
             "Virtual entries are matched by name (their mutual order is C15's).", "6/C14"),
     "C15": ("E1", "exhaustive enumeration of hash-map drain orders through the H3 seam; explicit-state model checking (stateright BFS) of interleaved iterators; bounded-exhaustive static-vs-dynamic comparison",
-            "(1) All k! x k! x k! drain orders of the parser's three HashMaps for programs with up to three C columns, read outputs and declarations: parsed tests, bound tests, signal order, row streams and binding errors must equal the identity order. (2) All interleavings of 3 iterators over one test (one restart each) for 12 programs with live internal state: item p and vars() of iterator j equal the solo run. (3) Every program up to 3 (thorough 4) statements of the C01/C18 alphabet: try_iter_static succeeds iff the reference's static read set is empty, and its rows (inputs, expected, line) equal 12 dynamic runs (4 answer values x 3 layouts).",
+            "(1) All k! x k! x k! drain orders of the parser's three HashMaps for programs with up to three C columns, read outputs and declarations: parsed tests, bound tests, signal order, row streams and binding errors must equal the identity order. (2) All interleavings of 3 iterators over one test (one restart each) for 12 programs with live internal state: item p and vars() of iterator j equal the solo run. (3) Every program up to 3 (thorough 4) statements of the C01/C18 alphabet: try_iter_static succeeds iff the reference's static read set is empty, and its rows (inputs, expected, line) equal 12 dynamic runs (4 answer values x 3 layouts); (3b) programs that fail at run time: static and dynamic item sequences stay equal when the caller carries on after error items; (1b) every order of the .dig loader's set of bidirectional names gives the same file.",
             "H3 replaces the real RandomState order (evidence records that the raw order varies); random draws are outside the property (seed pinned).", "6/C15"),
     "C05": ("E2", "bounded-exhaustive enumeration of all row shapes (per-column entry menus incl. X, C, Z, expressions, bits) x program forms x configurations against a reference expansion",
             "Every row shape over the per-column menus, at loop depth 0/1/2 and as a repeat row, for several header/signal-list configurations (permuted header, omitted input, bidirectional split, two clocks), compared with the reference expansion: number, order and values of the executed rows, checked/unchecked kind, expected values, line, and the call kinds a write_input-overriding driver sees.",
             "Trusts refsem.rs::do_row; loop bounds are >= 1 here.", "6/C05"),
     "C06": ("E2", "bounded-exhaustive enumeration of all signal lists x all headers (ordered selections) against a reference binder; changed-rule checked against the driver's own log, also after an injected driver fault",
-            "Every ordered selection of up to 4 (thorough 5) signals from a 9-signal menu (inputs, outputs, bidirectional, names in prefix and _out relation, several widths) x every ordered selection of up to 4 valid header columns; a nine-row program whose consecutive rows differ in one column / one bit / everywhere; compared with the reference binder, and the one-directional changed rule is checked against what the driver was actually handed, including when the caller carries on after a driver fault.",
+            "Every ordered selection of up to 4 (thorough 5) signals from a 9-signal menu (inputs, outputs, bidirectional, names in prefix and _out relation, several widths) x every ordered selection of up to 4 valid header columns; a nine-row program whose consecutive rows differ in one column / one bit / everywhere; compared with the reference binder, and the one-directional changed rule is checked against what the driver was actually handed, including when the caller carries on after a driver fault; every other signal list comes with a declared virtual signal, with and without a header column.",
             "Trusts refsem.rs::bind; lists with duplicate names are C11's.", "6/C06"),
     "C07": ("E2", "exhaustive sweep of all widths 1..=64 x boundary value set x value paths against v mod 2^bits",
             "All 64 widths x ~260 boundary values (every single-bit value, all-ones, negated, MIN/MAX, alternating) on the input path, expected path, a bidirectional signal, a virtual signal and on columns bound to two signals of different widths; values reach the program as hex literals and read back from a 64-bit device output. A mask-shaped reduction is pinned exactly by the single-bit values.",
@@ -55,7 +55,7 @@ CHECKS = {
             "For every enumerated text that the independent recogniser (own lexer + recursive descent, refgrammar.rs) rejects, from_str must return Err: unterminated/wrongly terminated blocks, end at top level, wrong row length, missing ; ) , unknown function, wrong arity, literal too large, bits width above 64 (incl. values aliasing small ones after a narrowing cast), duplicate header/declare names, header without line break; edits are token deletion/duplication/confusion-class replacement, line deletion/duplication, truncation at every byte, each ended in five ways.",
             "Trusts refgrammar.rs as the definition of malformed; texts the reference accepts but the subject rejects are counted, not failed (none on the current tree).", "6/C12"),
     "C19": ("E2", "bounded-exhaustive enumeration of programs x all layouts with at most 2 deviations; the generator records the line of each row",
-            "Every program up to 3 (thorough 4) statements that yields a row x every layout with <= 2 deviations (blank / whitespace-only / comment lines anywhere incl. directly after loop and while headers, blank lines before the header, CRLF on one line or all, trailing comment, missing final newline). line of every yielded row (every X/C expansion, every iteration) through the dynamic API, the static API and a generated .dig document must equal the line the generator put the row on.",
+            "Every program up to 3 (thorough 4) statements that yields a row x every layout with <= 2 deviations (blank / whitespace-only / comment lines anywhere incl. directly after loop and while headers, blank lines before the header, CRLF on one line or all, trailing comment, missing final newline). line of every yielded row (every X/C expansion, every iteration) through the dynamic API, the static API and a generated .dig document must equal the line the generator put the row on, also for multi-byte signal names and when another iterator over another test is advanced between all next() calls.",
             "The generating printer is the oracle; only the line field is compared.", "6/C19"),
     "C20": ("E2", "bounded-exhaustive metamorphic exploration: every program x every layout-only rewriting with at most 2 deviations compared with the canonical layout (no reference semantics)",
             "Every program up to 2 (thorough 3) statements over a token-boundary alphabet (literals in all radixes incl. as bits width and loop bound, multi-character operators, identifiers that start like keywords) and two malformed variants of each x every set of <= 2 deviations: blank space (spaces, tab, CR, form feed) in or removed from each gap, indentation, trailing space, appended comments, inserted blank/comment lines, CRLF, final newline, every other radix spelling of each literal. Verdict, static rows, dynamic rows and the vectors handed to the driver must be equal; line shifts by the lines inserted above.",
@@ -64,10 +64,10 @@ CHECKS = {
             "Every sequence of up to 3 (thorough 4) pins from a 14-pin menu (inputs with widths/defaults/high-Z, clock, outputs, duplicate and missing labels, non-numeric width, labels spelled like attribute keys, real <name>_out pins) x every sequence of up to 2 tests from a 15-test menu (duplicate, missing and empty labels, headers with _out columns of every kind, XML-special characters, CRLF, empty and unparsable sources). File::parse must return; a loadable document must yield exactly the described signals and the tests verbatim in order; load_test(i) must equal parse+bind; by-name selects the first match; out-of-range/unknown are errors. Every truncation, line deletion/duplication, tag rename, attribute emptying, bracket drop (and single-character deletion for small documents) of 7 base documents must not panic.",
             "Signal order is not specified by the property and is compared as a multiset; File::open is not explored.", "6/C16"),
     "C17": ("E2", "bounded-exhaustive enumeration of programs with random/resetRandom in every position x bounds x seeds; the hook's draw log is replayed through the reference interpreter",
-            "Every program up to 3 (thorough 4) statements over an alphabet placing random() in row entries, bits, let, loop/repeat bounds, while conditions, declarations, ite branches and dead operands with resetRandom anywhere, for 7 bounds (2 .. 2^62 and a device-computed one) and 11 seeds. From the draw log: every draw in range; the reference interpreter fed the logged values reproduces every row and consumes the log exactly with equal bounds and reset positions (one draw per evaluation, none in unselected ite branches, behaviour equals the literal program); after every resetRandom the stream replays; same seed gives the same run.",
+            "Every program up to 3 (thorough 4) statements over an alphabet placing random() in row entries, bits, let, loop/repeat bounds, while conditions, declarations, ite branches and dead operands with resetRandom anywhere, for 7 bounds (2 .. 2^62 and a device-computed one) and 11 seeds. From the draw log: every draw in range; the reference interpreter fed the logged values reproduces every row and consumes the log exactly with equal bounds and reset positions (one draw per evaluation, none in unselected ite branches, behaviour equals the literal program); after every resetRandom the stream replays; same seed gives the same run; every draw of a run comes from one generator object.",
             "Observation through hooks H1/H2; bounds and seeds are boundary sets (DESIGN section 10).", "6/C17"),
     "C18": ("E2", "bounded-exhaustive enumeration of all programs up to K statements; vars() compared with the reference environment after every row",
-            "Same program space as C01 (plus X and C rows); after every yielded row vars() must equal the reference interpreter's flattened frame stack at the moment the row was evaluated.",
+            "Same program space as C01 (plus X and C rows); after every yielded row vars() must equal the reference interpreter's flattened frame stack at the moment the row was evaluated. An explicit-state part (stateright) covers callers that carry on after an error item (failing virtual signal, failing row entry) under every answer history.",
             "Trusts the reference interpreter; values after an error item or the end are not specified and only required not to panic.", "6/C18"),
 }
 
